@@ -19,7 +19,7 @@ import rp_c08c09 as H
 
 RULE = ("genuine ID token per client setting (expected alg absent/RS256/ES256/HS256/none x registration "
         "static/dynamic x allow-none x skew 0/10 x allow_missing_kid) x delivery (with code / code+token / token / "
-        "alone; authorization or token endpoint) x EXHAUSTIVE single-fault matrix (~400 faults: every claim "
+        "alone; authorization or token endpoint) x EXHAUSTIVE single-fault matrix (313 faults: every claim "
         "removed/altered/retyped to str,int,list,bool,null,dict,empty; alg none/HS256 with client secret/HS256 with "
         "the RSA public key as secret/foreign keys/other issuer's key/alg mismatch; kid missing/unknown/other; "
         "exp and iat at each window boundary -1/0/+1; wrong/missing/foreign nonce; wrong/missing/swapped c_hash and "
@@ -155,6 +155,86 @@ def run_svc(ctx, clock, settings, faults_by_path, pick):
     return traces
 
 
+def malformed_stream(ctx, clock):
+    """Byte-level damage to the compact serialisation (no symbolic counterpart, so no model): truncated /
+    re-joined parts, non-JSON header or payload, alg null / missing, JSON-serialised JWS, foreign alphabets,
+    white space.  Oracle: nothing that is not a well-formed genuine token is ever returned or stored as verified."""
+    import base64
+    import json
+    world = H.make_world(clock, issuers=(H.ISS,), reg="dynamic", sigalg="RS256", skew=0)
+
+    def b(x):
+        return H.b64u(x if isinstance(x, bytes) else json.dumps(x).encode())
+    for path in ("svc_authz", "svc_token"):
+        for variant in range(40):
+            w = H.fresh_world(world)
+            clock.now = H.T0
+            st, nonce = w.begin(H.ISS, "code id_token" if path == "svc_authz" else "code")
+            claims = {"iss": H.ISS, "sub": "diana", "aud": [H.CLIENT_ID], "exp": H.T0 + 300, "iat": H.T0 - 5, "nonce": nonce}
+            code = "Co-malformed"
+            if path == "svc_authz":
+                claims["c_hash"] = H.left_hash_ref(code, 256)
+            good = H.mint("RS256", "iss_rsa1", claims, "r1")
+            h, p, sg = good.split(".")
+            raw = base64.urlsafe_b64decode(sg + "=" * (-len(sg) % 4))
+            items = [
+                ("genuine", good, True), ("padded-signature", h + "." + p + "." + sg + "=" * (-len(sg) % 4), True),
+                ("trailing-space", good + " ", True), ("leading-newline", "\n" + good, True),
+                ("not-a-jwt", "abc", False), ("two-parts", h + "." + p, False), ("four-parts", good + ".x", False),
+                ("five-parts", good + ".x.y", False), ("empty-signature", h + "." + p + ".", False),
+                ("truncated-signature", good[:-4], False), ("signature-of-other-token", h + "." + b(dict(claims, sub="admin")) + "." + sg, False),
+                ("header-not-json", b(b"{alg") + "." + p + "." + sg, False), ("payload-not-json", h + "." + b(b"{iss") + "." + sg, False),
+                ("payload-a-list", h + "." + b([claims]) + "." + sg, False), ("payload-a-string", h + "." + b("x") + "." + sg, False),
+                ("header-a-list", b(["RS256"]) + "." + p + "." + sg, False),
+                ("alg-missing", b({"kid": "r1"}) + "." + p + "." + sg, False),
+                ("alg-null-unsigned", b({"alg": None}) + "." + p + ".", False),
+                ("alg-null-signed", b({"alg": None, "kid": "r1"}) + "." + p + "." + sg, False),
+                ("alg-int", b({"alg": 5}) + "." + p + "." + sg, False), ("alg-list", b({"alg": ["RS256"]}) + "." + p + "." + sg, False),
+                ("alg-empty", b({"alg": ""}) + "." + p + "." + sg, False),
+                ("kid-int", b({"alg": "RS256", "kid": 1}) + "." + p + "." + sg, False),
+                ("header-rewritten", b({"alg": "RS256", "kid": "r1", "typ": "JWT"}) + "." + p + "." + sg, False),
+                ("payload-reencoded", h + "." + b(json.dumps(claims, indent=1).encode()) + "." + sg, False),
+                ("std-b64-signature", h + "." + p + "." + base64.b64encode(raw).decode().rstrip("="), True),
+                ("json-serialised-general", json.dumps({"payload": p, "signatures": [{"protected": h, "signature": sg}]}), False),
+                ("json-serialised-flattened", json.dumps({"payload": p, "protected": h, "signature": sg}), False),
+                ("jwe-looking", ".".join([b({"alg": "RSA-OAEP", "enc": "A128GCM"}), "a", "b", "c", "d"]), False),
+                ("id_token-a-dict", dict(claims), False), ("id_token-a-list", [good], False), ("id_token-int", 7, False),
+                ("id_token-null", None, False), ("dup-claims", h + "." + b(json.dumps(claims)[:-1].encode() + b', "sub": "admin"}') + "." + sg, False),
+                ("unicode-escaped-sub", h + "." + b(json.dumps(claims).replace("diana", "dian\\u0061").encode()) + "." + sg, False),
+                ("lower-cased", good.lower(), False), ("signature-bit-flip", h + "." + p + "." + b(bytes([raw[0] ^ 1]) + raw[1:]), False),
+                ("nul-byte", good + "\x00", False), ("dot-prefixed", "." + good, False), ("bytes-genuine", good.encode(), True),
+            ]
+            if variant >= len(items):
+                break
+            name, tok, may_accept = items[variant]
+            before = w.snapshot()
+            try:
+                if path == "svc_authz":
+                    r = w.clients[H.ISS].finalize_auth({"state": st, "code": code, "id_token": tok})
+                else:
+                    w.clients[H.ISS].finalize_auth({"state": st, "code": code})
+                    before = w.snapshot()
+                    w.clients[H.ISS].fake_op.script(H.ISS + "/token", {"access_token": "At", "token_type": "Bearer",
+                                                                      "id_token": tok.decode() if isinstance(tok, bytes) else tok})
+                    r = w.clients[H.ISS].get_tokens(st)
+                out = ("ok", r.get("__verified_id_token").to_dict() if r.get("__verified_id_token") is not None else None)
+            except Exception as e:      # noqa: BLE001
+                out = ("err", H.exc_name(e))
+            after = w.snapshot()
+            rec = {"path": path, "malformed": name, "out": out}
+            ctx.case_seen(rec, True)
+            ctx.count("malformed:" + (out[1] if out[0] == "err" else ("accepted" if out[1] else "no-token")))
+            stored = after[0][1].get(st, {}).get("__verified_id_token")
+            if (out[0] == "ok" and out[1] is not None or stored is not None) and not may_accept:
+                ctx.violation("malformed-token-accepted", "a damaged ID token (%s) was returned/stored as verified: %s"
+                              % (name, out[1] or stored), rec)
+            if out[0] == "ok" and out[1] is not None and out[1].get("sub") != "diana":
+                ctx.violation("malformed-token-accepted", "verified claims differ from what the issuer signed (%s): %s"
+                              % (name, out[1]), rec)
+            if out[0] == "err" and before != after:
+                ctx.violation("rejected-but-stored", "refused (%s, %s) but the client state changed" % (name, out[1]), rec)
+
+
 def random_pairs(rng, faults, n):
     out = []
     for _ in range(n):
@@ -247,15 +327,16 @@ def run(ctx):
     else:
         everything = lambda s, p, d, f: True  # noqa: E731
         msg_cases += run_msg(ctx, clock, dyn, faults, full, everything)
-        msg_cases += run_msg(ctx, clock, principal + [s for s in dyn if s["allow_none"] and s["skew"] == 0
-                                                      and not s["allow_missing_kid"]], faults, others, everything)
-        traces += run_svc(ctx, clock, H.SETTINGS, faults, everything)
+        msg_cases += run_msg(ctx, clock, principal, faults, others, everything)
+        traces += run_svc(ctx, clock, coupled, faults, everything)
+        traces += run_svc(ctx, clock, [s for s in H.SETTINGS if s not in coupled], faults, main_delivery)
     # ---- random fault pairs
-    npairs = 120 if ctx.quick else 3000
+    npairs = 120 if ctx.quick else 600
     pair_faults = {p: random_pairs(rng, faults[p], npairs) for p in H.PATHS}
-    some = [rng.choice(coupled) for _ in range(2 if ctx.quick else 12)]
+    some = [rng.choice(coupled) for _ in range(2 if ctx.quick else 6)]
     msg_cases += run_msg(ctx, clock, [dict(s, reg="dynamic") for s in some], pair_faults, full, main_delivery)
     traces += run_svc(ctx, clock, some[:1] if ctx.quick else some, pair_faults, main_delivery)
+    malformed_stream(ctx, clock)
     clock.uninstall()
     H.check_cases(ctx, H.RESP_IMPORTS, H.RESP_TYPE, "chk_resp_case", msg_cases, shard=400, label="msg",
                   diag="run_resp_case")
